@@ -53,3 +53,23 @@ func (p *Program) FrameScan(structKey, field string) []string {
 	sort.Strings(out)
 	return out
 }
+
+// GlobalStores lists the /repo functions other than package initialisers that store to a package-level variable.
+func (p *Program) GlobalStores() map[string][]string {
+	out := map[string][]string{}
+	for f := range ssautil.AllFunctions(p.Prog) {
+		if !p.InRepo(f) || f.Blocks == nil || f.Name() == "init" || f.Synthetic != "" {
+			continue
+		}
+		for _, b := range f.Blocks {
+			for _, ins := range b.Instrs {
+				if st, ok := ins.(*ssa.Store); ok {
+					if g, ok := st.Addr.(*ssa.Global); ok {
+						out[g.Name()] = append(out[g.Name()], FuncKey(f))
+					}
+				}
+			}
+		}
+	}
+	return out
+}
